@@ -1,3 +1,4 @@
+import ZorgVerif.Gen.Consts
 import ZorgVerif.Lemmas.Action
 /-! # C17 — `action open` offers and opens exactly the link targets on the line
 
@@ -81,6 +82,14 @@ theorem C17_id_pages (xs : List Str) (x : Str) : x ∈ dedupSorted xs ↔ x ∈ 
 theorem C17_rid_link (zdir : Str) (lk : Lookup) (v page : Str) (hv : ∀ c ∈ v, c ≠ '^' ∧ c ≠ '[') (h : lk.ridPages v = [page]) :
     openLink zdir lk (.word ("[@".toList ++ v ++ "]".toList)) =
       ⟨["EDIT ".toList ++ fullPath zdir page, "SEARCH RID::".toList ++ v ++ searchEnd], 0⟩ := open_rid_link zdir lk v page hv h
+
+/-- **Source constants** (regenerated from /repo on every run, `Gen/Consts.lean`): the punctuation stripped from words, the ZID
+brackets, the local-link mark, the search suffix and the "nothing to open" message of `_run_action.py` are the ones the model uses -/
+theorem C17_source_constants :
+    Gen.actionStripSets = ["(),.?!;:", "[]"] ∧ Gen.actionLocalLinkLeftMark = "[^" ∧
+    Gen.actionSearchEnd.toList = searchEnd ∧
+    (respond [] ⟨fun _ => none, fun _ => [], fun _ => []⟩ [] 7 none).lines =
+      ["ECHO ".toList ++ Gen.actionNothingMsg.toList ++ " #7".toList] := by decide +kernel
 
 /-! Non-vacuity: concrete lines (kernel-evaluated). -/
 private def vd : Str → Bool := fun _ => true
